@@ -478,7 +478,7 @@ func runC16(c *Ctx) {
 	// ---------- R5 ----------
 	if rec := walletFn(c, "C16-R5", "recovery"); rec != nil {
 		n := 0
-		for _, f := range Closures(rec) {
+		for _, f := range c.P.regionOf(rec) {
 			calls := callsNamed(f, "recoverScopedAddresses")
 			if len(calls) == 0 {
 				continue
